@@ -1023,3 +1023,368 @@ mod tests {
         assert_eq!(events.lock().unwrap().len(), 0, "expected no new events");
     }
 }
+
+/// Verification hook (feature `verif-hooks`): steps a real [`DispatcherContext`] one
+/// [`InternalEvent`] at a time from plain descriptions, and reports what it did as plain data.
+/// Add-only; not used by nextest itself.
+#[cfg(feature = "verif-hooks")]
+pub mod verif_stepper {
+    use super::*;
+    use crate::{
+        reporter::events::{
+            AbortStatus, ExecutionResult, RetryData, SetupScriptExecuteStatus,
+        },
+        reporter::TestOutputDisplay,
+        test_output::{ChildExecutionOutput, ChildOutput, ChildSplitOutput},
+    };
+    use nextest_metadata::MismatchReason;
+    use std::sync::{Arc, Mutex};
+
+    /// An event to feed to the dispatcher.
+    #[derive(Clone, Debug)]
+    pub enum StepEvent<'a> {
+        /// `ExecutorEvent::Started` for test number `0`.
+        Started(usize),
+        /// The unit closes its request receiver (what a unit does just before `Finished`).
+        CloseRx(usize),
+        /// `ExecutorEvent::RetryStarted { attempt, total_attempts }`.
+        RetryStarted(usize, usize, usize),
+        /// `ExecutorEvent::AttemptFailedWillRetry` with (result, is_slow, attempt, total).
+        AttemptFailedWillRetry(usize, ExecutionResult, bool, usize, usize),
+        /// `ExecutorEvent::Finished` with (result, is_slow, attempt, total).
+        Finished(usize, ExecutionResult, bool, usize, usize),
+        /// `ExecutorEvent::Skipped`.
+        Skipped(usize),
+        /// `ExecutorEvent::SetupScriptStarted`.
+        ScriptStarted(ScriptId, &'a ScriptConfig, usize, usize),
+        /// The running setup script closes its request receiver.
+        ScriptCloseRx,
+        /// `ExecutorEvent::SetupScriptFinished`.
+        ScriptFinished(ScriptId, &'a ScriptConfig, usize, usize, ExecutionResult),
+        /// A shutdown signal: 0 = interrupt, 1 = term, 2 = hangup, 3 = quit.
+        Shutdown(u8),
+        /// SIGTSTP.
+        Stop,
+        /// SIGCONT.
+        Continue,
+        /// SIGUSR1 / input `t`.
+        Info,
+        /// The reporter failed.
+        ReportCancel,
+        /// Enter pressed.
+        InputEnter,
+    }
+
+    /// What one step did.
+    #[derive(Clone, Debug)]
+    pub struct StepOutcome {
+        /// The `HandleEventResponse`, rendered.
+        pub response: String,
+        /// `ack` if the unit's oneshot was answered, `drop` if it was dropped, `-` if none.
+        pub reply: &'static str,
+        /// Emitted `TestEventKind`s, rendered.
+        pub emitted: Vec<String>,
+        /// `cancel_state` after the step.
+        pub cancel_state: Option<CancelReason>,
+        /// `run_stats` after the step.
+        pub stats: RunStats,
+        /// Number of registered tests after the step.
+        pub running: usize,
+        /// Requests delivered to registered units by this step: (unit, request).
+        pub delivered: Vec<(String, String)>,
+        /// Number of units the response's request was broadcast to.
+        pub broadcast_count: Option<usize>,
+    }
+
+    /// A dispatcher that can be stepped.
+    pub struct Stepper<'a> {
+        cx: DispatcherContext<'a, Box<dyn FnMut(TestEvent<'a>) + Send + 'a>>,
+        events: Arc<Mutex<Vec<String>>>,
+        tests: Vec<TestInstance<'a>>,
+        unit_rx: BTreeMap<usize, UnboundedReceiver<RunUnitRequest<'a>>>,
+        script_rx: Option<UnboundedReceiver<RunUnitRequest<'a>>>,
+    }
+
+    fn result_str(r: &ExecutionResult) -> String {
+        match r {
+            ExecutionResult::Pass => "P".into(),
+            ExecutionResult::Leak => "L".into(),
+            ExecutionResult::Fail { abort_status: None, leaked } => {
+                if *leaked { "Fl".into() } else { "F".into() }
+            }
+            #[cfg(unix)]
+            ExecutionResult::Fail { abort_status: Some(AbortStatus::UnixSignal(s)), .. } => format!("FS{s}"),
+            #[cfg(not(unix))]
+            ExecutionResult::Fail { .. } => "FS".into(),
+            ExecutionResult::ExecFail => "X".into(),
+            ExecutionResult::Timeout => "T".into(),
+        }
+    }
+
+    fn stats_str(s: &RunStats) -> String {
+        format!(
+            "i{} f{} p{} ps{} fk{} fa{} fs{} to{} lk{} xf{} sk{} si{} sf{} sp{} sfa{} sx{} st{}",
+            s.initial_run_count, s.finished_count, s.passed, s.passed_slow, s.flaky, s.failed,
+            s.failed_slow, s.timed_out, s.leaky, s.exec_failed, s.skipped,
+            s.setup_scripts_initial_count, s.setup_scripts_finished_count, s.setup_scripts_passed,
+            s.setup_scripts_failed, s.setup_scripts_exec_failed, s.setup_scripts_timed_out
+        )
+    }
+
+    /// Renders run statistics in the stepper's canonical form.
+    pub fn render_stats(s: &RunStats) -> String {
+        stats_str(s)
+    }
+
+    fn empty_output() -> ChildExecutionOutput {
+        ChildExecutionOutput::Output {
+            result: None,
+            output: ChildOutput::Split(ChildSplitOutput { stdout: None, stderr: None }),
+            errors: None,
+        }
+    }
+
+    fn status(result: ExecutionResult, is_slow: bool, attempt: usize, total: usize) -> ExecuteStatus {
+        ExecuteStatus {
+            retry_data: RetryData { attempt, total_attempts: total },
+            output: empty_output(),
+            result,
+            start_time: Local::now().fixed_offset(),
+            time_taken: Duration::from_millis(1),
+            is_slow,
+            delay_before_start: Duration::ZERO,
+        }
+    }
+
+    impl<'a> Stepper<'a> {
+        /// Creates a dispatcher over the given tests.
+        pub fn new(tests: Vec<TestInstance<'a>>, initial_run_count: usize, max_fail: MaxFail) -> Self {
+            let events: Arc<Mutex<Vec<String>>> = Arc::new(Mutex::new(Vec::new()));
+            let ev2 = events.clone();
+            let names: Vec<TestInstanceId<'a>> = tests.iter().map(|t| t.id()).collect();
+            let idx = move |id: TestInstanceId<'a>| -> String {
+                names.iter().position(|n| *n == id).map_or("?".to_string(), |i| i.to_string())
+            };
+            let callback: Box<dyn FnMut(TestEvent<'a>) + Send + 'a> = Box::new(move |event: TestEvent<'a>| {
+                let s = match &event.kind {
+                    TestEventKind::RunStarted { .. } => "RunStarted".to_string(),
+                    TestEventKind::SetupScriptStarted { index, total, .. } => format!("SetupScriptStarted({index}/{total})"),
+                    TestEventKind::SetupScriptSlow { .. } => "SetupScriptSlow".to_string(),
+                    TestEventKind::SetupScriptFinished { index, run_status, .. } => {
+                        format!("SetupScriptFinished({index},{})", result_str(&run_status.result))
+                    }
+                    TestEventKind::TestStarted { test_instance, current_stats, running, cancel_state } => {
+                        format!("TestStarted({},running={running},cancel={cancel_state:?},[{}])", idx(test_instance.id()), stats_str(current_stats))
+                    }
+                    TestEventKind::TestSlow { test_instance, .. } => format!("TestSlow({})", idx(test_instance.id())),
+                    TestEventKind::TestAttemptFailedWillRetry { test_instance, run_status, .. } => {
+                        format!("TestAttemptFailedWillRetry({},{})", idx(test_instance.id()), result_str(&run_status.result))
+                    }
+                    TestEventKind::TestRetryStarted { test_instance, retry_data } => {
+                        format!("TestRetryStarted({},{}/{})", idx(test_instance.id()), retry_data.attempt, retry_data.total_attempts)
+                    }
+                    TestEventKind::TestFinished { test_instance, run_statuses, current_stats, running, cancel_state, .. } => {
+                        let st: Vec<String> = run_statuses.iter().map(|s| result_str(&s.result)).collect();
+                        format!("TestFinished({},[{}],running={running},cancel={cancel_state:?},[{}])", idx(test_instance.id()), st.join(","), stats_str(current_stats))
+                    }
+                    TestEventKind::TestSkipped { test_instance, reason } => format!("TestSkipped({},{reason:?})", idx(test_instance.id())),
+                    TestEventKind::InfoStarted { total, .. } => format!("InfoStarted({total})"),
+                    TestEventKind::InfoResponse { index, total, .. } => format!("InfoResponse({index}/{total})"),
+                    TestEventKind::InfoFinished { missing } => format!("InfoFinished({missing})"),
+                    TestEventKind::InputEnter { running, cancel_reason, .. } => format!("InputEnter(running={running},cancel={cancel_reason:?})"),
+                    TestEventKind::RunBeginCancel { setup_scripts_running, running, reason } => {
+                        format!("RunBeginCancel({reason:?},scripts={setup_scripts_running},running={running})")
+                    }
+                    TestEventKind::RunBeginKill { setup_scripts_running, running, reason } => {
+                        format!("RunBeginKill({reason:?},scripts={setup_scripts_running},running={running})")
+                    }
+                    TestEventKind::RunPaused { setup_scripts_running, running } => format!("RunPaused(scripts={setup_scripts_running},running={running})"),
+                    TestEventKind::RunContinued { setup_scripts_running, running } => format!("RunContinued(scripts={setup_scripts_running},running={running})"),
+                    TestEventKind::RunFinished { run_stats, .. } => format!("RunFinished([{}])", stats_str(run_stats)),
+                };
+                ev2.lock().unwrap().push(s);
+            });
+            let cx = DispatcherContext::new(callback, ReportUuid::new_v4(), "default", vec![], initial_run_count, max_fail);
+            Self { cx, events, tests, unit_rx: BTreeMap::new(), script_rx: None }
+        }
+
+        /// Final statistics (what `TestRunner::execute` returns).
+        pub fn run_stats(&self) -> RunStats {
+            self.cx.run_stats()
+        }
+
+        /// Emits `RunFinished` and returns the rendered event.
+        pub fn run_finished(&mut self) -> Vec<String> {
+            self.cx.run_finished();
+            std::mem::take(&mut *self.events.lock().unwrap())
+        }
+
+        fn req_str(req: RunUnitRequest<'a>) -> String {
+            match req {
+                #[cfg(unix)]
+                RunUnitRequest::Signal(SignalRequest::Stop(tx)) => { let _ = tx.send(()); "Stop".into() }
+                #[cfg(unix)]
+                RunUnitRequest::Signal(SignalRequest::Continue) => "Continue".into(),
+                RunUnitRequest::Signal(SignalRequest::Shutdown(ShutdownRequest::Once(e))) => format!("Shutdown(Once({e:?}))"),
+                RunUnitRequest::Signal(SignalRequest::Shutdown(ShutdownRequest::Twice)) => "Shutdown(Twice)".into(),
+                RunUnitRequest::OtherCancel => "OtherCancel".into(),
+                RunUnitRequest::Query(RunUnitQuery::GetInfo(_)) => "GetInfo".into(),
+            }
+        }
+
+        /// Feeds one event to `handle_event` and performs the broadcast that `run` performs for
+        /// the returned response (without stopping the process on `Stop`).
+        pub fn step(&mut self, ev: StepEvent<'a>) -> StepOutcome {
+            let mut reply: &'static str = "-";
+            let internal = match ev {
+                StepEvent::CloseRx(i) => {
+                    self.unit_rx.remove(&i);
+                    None
+                }
+                StepEvent::ScriptCloseRx => {
+                    self.script_rx = None;
+                    None
+                }
+                StepEvent::Started(i) => {
+                    let (tx, mut rx) = oneshot::channel();
+                    let ev = InternalEvent::Executor(ExecutorEvent::Started { test_instance: self.tests[i], req_rx_tx: tx });
+                    let response = self.cx.handle_event(ev);
+                    reply = match rx.try_recv() {
+                        Ok(req_rx) => { self.unit_rx.insert(i, req_rx); "ack" }
+                        Err(_) => "drop",
+                    };
+                    return self.finish(response, reply);
+                }
+                StepEvent::RetryStarted(i, attempt, total) => {
+                    let (tx, mut rx) = oneshot::channel();
+                    let ev = InternalEvent::Executor(ExecutorEvent::RetryStarted {
+                        test_instance: self.tests[i],
+                        retry_data: RetryData { attempt, total_attempts: total },
+                        tx,
+                    });
+                    let response = self.cx.handle_event(ev);
+                    reply = if rx.try_recv().is_ok() { "ack" } else { "drop" };
+                    return self.finish(response, reply);
+                }
+                StepEvent::ScriptStarted(script_id, config, index, total) => {
+                    let (tx, mut rx) = oneshot::channel();
+                    let ev = InternalEvent::Executor(ExecutorEvent::SetupScriptStarted { script_id, config, index, total, req_rx_tx: tx });
+                    let response = self.cx.handle_event(ev);
+                    reply = match rx.try_recv() {
+                        Ok(req_rx) => { self.script_rx = Some(req_rx); "ack" }
+                        Err(_) => "drop",
+                    };
+                    return self.finish(response, reply);
+                }
+                StepEvent::AttemptFailedWillRetry(i, result, slow, attempt, total) => Some(InternalEvent::Executor(ExecutorEvent::AttemptFailedWillRetry {
+                    test_instance: self.tests[i],
+                    failure_output: TestOutputDisplay::Never,
+                    run_status: status(result, slow, attempt, total),
+                    delay_before_next_attempt: Duration::ZERO,
+                })),
+                StepEvent::Finished(i, result, slow, attempt, total) => {
+                    self.unit_rx.remove(&i);
+                    Some(InternalEvent::Executor(ExecutorEvent::Finished {
+                        test_instance: self.tests[i],
+                        success_output: TestOutputDisplay::Never,
+                        failure_output: TestOutputDisplay::Never,
+                        junit_store_success_output: false,
+                        junit_store_failure_output: false,
+                        last_run_status: status(result, slow, attempt, total),
+                    }))
+                }
+                StepEvent::Skipped(i) => Some(InternalEvent::Executor(ExecutorEvent::Skipped { test_instance: self.tests[i], reason: MismatchReason::String })),
+                StepEvent::ScriptFinished(script_id, config, index, total, result) => {
+                    self.script_rx = None;
+                    Some(InternalEvent::Executor(ExecutorEvent::SetupScriptFinished {
+                        script_id, config, index, total,
+                        status: SetupScriptExecuteStatus {
+                            output: empty_output(), result, start_time: Local::now().fixed_offset(),
+                            time_taken: Duration::from_millis(1), is_slow: false, env_map: None,
+                        },
+                    }))
+                }
+                StepEvent::Shutdown(k) => {
+                    let e = match k {
+                        #[cfg(unix)]
+                        1 => ShutdownEvent::Term,
+                        #[cfg(unix)]
+                        2 => ShutdownEvent::Hangup,
+                        #[cfg(unix)]
+                        3 => ShutdownEvent::Quit,
+                        _ => ShutdownEvent::Interrupt,
+                    };
+                    Some(InternalEvent::Signal(SignalEvent::Shutdown(e)))
+                }
+                #[cfg(unix)]
+                StepEvent::Stop => Some(InternalEvent::Signal(SignalEvent::JobControl(JobControlEvent::Stop))),
+                #[cfg(unix)]
+                StepEvent::Continue => Some(InternalEvent::Signal(SignalEvent::JobControl(JobControlEvent::Continue))),
+                #[cfg(not(unix))]
+                StepEvent::Stop | StepEvent::Continue => None,
+                StepEvent::Info => Some(InternalEvent::Input(InputEvent::Info)),
+                StepEvent::ReportCancel => Some(InternalEvent::ReportCancel),
+                StepEvent::InputEnter => Some(InternalEvent::Input(InputEvent::Enter)),
+            };
+            match internal {
+                Some(ev) => {
+                    let response = self.cx.handle_event(ev);
+                    self.finish(response, reply)
+                }
+                None => self.finish(HandleEventResponse::None, reply),
+            }
+        }
+
+        fn finish(&mut self, response: HandleEventResponse, reply: &'static str) -> StepOutcome {
+            // The part of `DispatcherContext::run` that acts on the response.
+            let mut broadcast_count = None;
+            match response {
+                #[cfg(unix)]
+                HandleEventResponse::JobControl(JobControlEvent::Stop) => {
+                    let (status_tx, _status_rx) = unbounded_channel();
+                    broadcast_count = Some(self.cx.broadcast_request(RunUnitRequest::Signal(SignalRequest::Stop(status_tx))));
+                }
+                #[cfg(unix)]
+                HandleEventResponse::JobControl(JobControlEvent::Continue) => {
+                    broadcast_count = Some(self.cx.broadcast_request(RunUnitRequest::Signal(SignalRequest::Continue)));
+                }
+                #[cfg(not(unix))]
+                HandleEventResponse::JobControl(_) => {}
+                HandleEventResponse::Info(_) => {
+                    let (sender, _receiver) = unbounded_channel();
+                    let total = self.cx.broadcast_request(RunUnitRequest::Query(RunUnitQuery::GetInfo(sender)));
+                    broadcast_count = Some(total);
+                    self.cx.info_started(total);
+                }
+                HandleEventResponse::Cancel(CancelEvent::Report) | HandleEventResponse::Cancel(CancelEvent::TestFailure) => {
+                    broadcast_count = Some(self.cx.broadcast_request(RunUnitRequest::OtherCancel));
+                }
+                HandleEventResponse::Cancel(CancelEvent::Signal(req)) => {
+                    broadcast_count = Some(self.cx.broadcast_request(RunUnitRequest::Signal(SignalRequest::Shutdown(req))));
+                }
+                HandleEventResponse::None => {}
+            }
+            let mut delivered = Vec::new();
+            if let Some(rx) = &mut self.script_rx {
+                while let Ok(req) = rx.try_recv() {
+                    delivered.push(("script".to_string(), Self::req_str(req)));
+                }
+            }
+            for (i, rx) in self.unit_rx.iter_mut() {
+                while let Ok(req) = rx.try_recv() {
+                    delivered.push((i.to_string(), Self::req_str(req)));
+                }
+            }
+            StepOutcome {
+                response: format!("{response:?}"),
+                reply,
+                emitted: std::mem::take(&mut *self.events.lock().unwrap()),
+                cancel_state: self.cx.cancel_state,
+                stats: self.cx.run_stats,
+                running: self.cx.running_tests.len(),
+                delivered,
+                broadcast_count,
+            }
+        }
+    }
+}
